@@ -1,0 +1,13 @@
+//go:build verif
+
+// Contracts for package apitypes, read by the verification-condition generator
+// in /verif (govc).  Comment-only.
+
+package apitypes
+
+// Describing an endpoint has no side effects (every implementation listed in
+// api.New is checked against this by the registry obligations of package api).
+//@ func Endpoint.EndpointMethods
+//@   pure
+//@ func Endpoint.Path
+//@   pure
